@@ -97,6 +97,21 @@ def has_stream_ops(n, side):
     return any(is_stream_call(x, side) for x in H.walk(n))
 
 
+
+def _only_continue(els):
+    """the else block of a let-else is just `continue` (possibly wrapped in blocks / a trailing semicolon)"""
+    e = H.peel(els, refs=False)
+    while e.get("k") in ("block", "semi"):
+        if e.get("k") == "semi":
+            e = H.peel(e["e"], refs=False)
+            continue
+        items = e.get("stmts", []) + ([e["tail"]] if "tail" in e else [])
+        if len(items) != 1:
+            return False
+        e = H.peel(items[0], refs=False)
+    return e.get("k") == "continue"
+
+
 class Extractor:
     """Event extraction for one function body. Events are (buffer id, item)."""
 
@@ -143,7 +158,16 @@ class Extractor:
 
     def seq(self, nodes):
         out = []
-        for x in nodes:
+        for i, x in enumerate(nodes):
+            # `let PAT = e else { continue };  <rest>`  ==  `if let PAT = e { <rest> }` (the early-exit spelling of a filtered element)
+            if x.get("k") == "let" and "els" in x and "init" in x and _only_continue(x["els"]):
+                rest = self.seq(nodes[i + 1:])
+                pre = self.walk(x["init"])
+                if not rest:
+                    return out + pre
+                cond = {"k": "letexpr", "pat": x["pat"], "init": x["init"], "sp": x.get("sp"), "ty": "bool"}
+                node = {"k": "if", "cond": cond, "then": {"k": "block", "stmts": list(nodes[i + 1:]), "sp": x.get("sp")}, "sp": x.get("sp")}
+                return out + pre + [(None, {"i": "if", "cond": cond, "then": rest, "else": [], "tn": node["then"], "en": None, "node": node})]
             out.extend(self.walk(x))
         return out
 
